@@ -787,7 +787,13 @@ impl SymbolicBDD {
                     }
                 }
             } else if let Some(number) = c.name("countable") {
-                let parsed_number = number.as_str().parse().expect("Failed to parse number");
+                // `\d+` also matches non-ASCII digits and arbitrarily long digit strings
+                let parsed_number = number.as_str().parse().map_err(|_| {
+                    io::Error::new(
+                        io::ErrorKind::InvalidData,
+                        format!("Invalid number: {}", number.as_str()),
+                    )
+                })?;
                 result.push(SymbolicBDDToken::Countable(parsed_number));
             } else if c.name("eof").is_some() {
                 result.push(SymbolicBDDToken::Eof);
